@@ -193,9 +193,16 @@ type modelReq struct {
 	IP     string `json:"ip"`
 }
 type modelUp struct {
-	Status int    `json:"status"`
-	Lines  []H    `json:"lines"`
-	Body   string `json:"body"`
+	Status int          `json:"status"`
+	Lines  []H          `json:"lines"`
+	Body   string       `json:"body"`
+	Timing *modelTiming `json:"timing,omitempty"`
+}
+
+type modelTiming struct {
+	BeforeStatus int   `json:"beforeStatus"`
+	BeforeBody   int   `json:"beforeBody"`
+	Gaps         []int `json:"gaps"`
 }
 
 func (w *world) modelArgs(cs Case, id string) map[string]interface{} {
@@ -208,11 +215,15 @@ func (w *world) modelArgs(cs Case, id string) map[string]interface{} {
 		upBody = []byte{}
 	}
 	host := strings.ToLower(rig.UnHex(cs.Req.Host))
+	var timing *modelTiming
+	if d := cs.Up.Delay; d != nil {
+		timing = &modelTiming{BeforeStatus: d.BeforeStatusMs, BeforeBody: d.BeforeBodyMs, Gaps: append([]int{}, d.BetweenMs...)}
+	}
 	return map[string]interface{}{
 		"req": modelReq{Method: cs.Req.Method, Target: cs.Req.Target, Host: cs.Req.Host, Lines: lines,
 			Body: rig.Hex(tag(cs.Req.bodyBytes())), IP: rig.Hex("127.0.0.1")},
 		"closeIdle": strings.HasPrefix(host, clCloseIdle),
-		"up":        modelUp{Status: cs.Up.Status, Lines: orEmpty(cs.Up.Headers), Body: rig.Hex(tag(upBody))},
+		"up":        modelUp{Status: cs.Up.Status, Lines: orEmpty(cs.Up.Headers), Body: rig.Hex(tag(upBody)), Timing: timing},
 	}
 }
 
@@ -229,6 +240,7 @@ type respVerdict struct{ Status, Body, Headers bool }
 type forwardModel struct {
 	Accepted    bool        `json:"accepted"`
 	Upgrade     bool        `json:"upgrade"`
+	GatewayErr  bool        `json:"gatewayError"` // the model's transport gives up before the upstream's header (a response-header deadline): gateway-made 502
 	Up          *SeenUp     `json:"up"`
 	Client      *SeenClient `json:"client"`
 	ReqVerdict  reqVerdict  `json:"reqVerdict"`
@@ -334,6 +346,14 @@ func judgeForward(c *rig.Ctx, w *world, cs Case, id string, o Obs, record bool, 
 	if rig.Canon(m.Up) != rig.Canon(o.Up) {
 		return fail("diff", "c04.diff.up", "model and code disagree on the upstream request")
 	}
+	if m.GatewayErr {
+		// only reachable on a tree whose transport has a response-header deadline — and then the judge above has already
+		// failed (the upstream's answer is not relayed). Kept so that model and code are still compared there.
+		if o.Client.Status != 502 {
+			return fail("diff", "c04.diff.client", fmt.Sprintf("the model's transport gives up before the header (502), the code answered %d", o.Client.Status))
+		}
+		return true
+	}
 	if rig.Canon(m.Client) != rig.Canon(o.Client) {
 		return fail("diff", "c04.diff.client", "model and code disagree on the client response")
 	}
@@ -360,7 +380,7 @@ func describe(cs Case) string {
 		}
 	}
 	return fmt.Sprintf("%s %s %q Host=%s headers=%q body=%d/%v row=%s -> upstream %d headers=%q body=%d", proto, rig.UnHex(cs.Req.Method), rig.UnHex(cs.Req.Target),
-		rig.UnHex(cs.Req.Host), hs, cs.Req.BodyLen, cs.Req.HasBody, cs.Row, cs.Up.Status, us, cs.Up.BodyLen)
+		rig.UnHex(cs.Req.Host), hs, cs.Req.BodyLen, cs.Req.HasBody, cs.Row, cs.Up.Status, us, cs.Up.BodyLen) + describeDelay(cs.Up.Delay)
 }
 
 func shrinkCase(cs Case, fails func(Case) bool) Case {
@@ -856,6 +876,7 @@ func main() {
 		}
 		files, _ := filepath.Glob(filepath.Join(os.Getenv("VERIF_DIR"), "harness", "corpus", "C04", "*.json"))
 		sort.Strings(files)
+		var slowCorpus []Case
 		for _, f := range files {
 			b, _ := os.ReadFile(f)
 			var env struct{ Case json.RawMessage }
@@ -865,6 +886,11 @@ func main() {
 			c.Case(string(env.Case), true, "corpus", nil)
 			c.Trace()
 			raw := env.Case
+			var slow Case
+			if json.Unmarshal(raw, &slow) == nil && slow.Kind == "forward" && slow.Up.Delay.total() > time.Second {
+				slowCorpus = append(slowCorpus, slow) // its upstream waits for seconds: run next to the other delayed cases (delay.go)
+				continue
+			}
 			if !runAny(c, w, raw, false) {
 				if seenClass() {
 					c.Count("repeat:" + lastClass)
@@ -875,6 +901,8 @@ func main() {
 			}
 		}
 		r := c.Rng
+		// 0. delayed upstream answers: started now, they sleep while the other streams run, joined at the end (delay.go)
+		delayed := startDelayStream(c, w, slowCorpus)
 		// 1. pure URL stream
 		nURL := c.Budget(20000, 400000)
 		for i := 0; i < nURL && c.NFailures() < 8; i++ {
@@ -910,6 +938,9 @@ func main() {
 						c.Count("fwd.h2-body-undeclared")
 					}
 				}
+			}
+			if smallDelay(c.Seed, i, &cs.Up) {
+				c.Count("fwd.delay=ms")
 			}
 			c.Case(rig.Canon(cs), cl.nontrivial, coarse(cl.bucket), func() interface{} { return describe(cs) })
 			for _, dim := range strings.Split(cl.bucket, ":")[1:] {
@@ -988,6 +1019,10 @@ func main() {
 		// 5. whole configurations and request sequences against the composed model (compose.go)
 		if c.NFailures() < 8 {
 			runGatewayStream(c, theGwPool())
+		}
+		// 6. join the delayed round trips and judge them
+		if c.NFailures() < 8 {
+			delayed.finish(c, w)
 		}
 		w.mu.Lock()
 		strays := w.strays
